@@ -14,7 +14,7 @@
               | edges           the connection's `edges` field
       VERDICT accepted | toohigh | (exceeds cost max) | (secondary msg) | (panic what) | oof
       ACTUAL  unset | integer                              REF     none | natural (Spec.refCost)
-  The cost context type is `Int`; the background context is 0.
+  The cost context type is `Ctx = Int × Int` (application value, max edge count); background = (0, 0).
 -/
 import ApiFu.Common.Sexp
 import ApiFu.Common.Loop
@@ -39,7 +39,7 @@ def parseArgVal (x : Sexp) : Option ArgVal :=
   | Sexp.atom "null" => some .null
   | _ => (x.int?).map .int
 
-def parseSrc (x : Sexp) : Option (CostSrc Int) :=
+def parseSrc (x : Sexp) : Option (CostSrc Ctx) :=
   match x with
   | Sexp.atom "edges" => some (.fn edgesCost)
   | Sexp.list [Sexp.atom "conn", f, l] =>
@@ -52,12 +52,14 @@ def parseSrc (x : Sexp) : Option (CostSrc Int) :=
   | Sexp.atom "d" => some .default
   | Sexp.list [Sexp.atom "c", r, m, c] =>
     match parseVal r, parseVal m, parseCtx c with
-    | some r, some m, some c => some (.fn fun k => { resolver := r k, multiplier := m k, ctx := c })
+    | some r, some m, some c =>
+      -- R, M read the application's value; C replaces it and keeps the max edge count
+      some (.fn fun k => { resolver := r k.1, multiplier := m k.1, ctx := c.map fun n => (n, k.2) })
     | _, _, _ => none
   | _ => none
 
 mutual
-partial def parseNode (x : Sexp) : Option (Node Int) :=
+partial def parseNode (x : Sexp) : Option (Node Ctx) :=
   match x with
   | Sexp.list (Sexp.atom "f" :: src :: children) =>
     match parseSrc src, parseNodes children with
@@ -66,7 +68,7 @@ partial def parseNode (x : Sexp) : Option (Node Int) :=
   | Sexp.list (Sexp.atom "s" :: Sexp.atom name :: children) => (parseNodes children).map (.spread name)
   | Sexp.list (Sexp.atom "o" :: children) => (parseNodes children).map .other
   | _ => none
-partial def parseNodes (xs : List Sexp) : Option (List (Node Int)) :=
+partial def parseNodes (xs : List Sexp) : Option (List (Node Ctx)) :=
   match xs with
   | [] => some []
   | x :: rest =>
@@ -75,13 +77,13 @@ partial def parseNodes (xs : List Sexp) : Option (List (Node Int)) :=
     | _, _ => none
 end
 
-def parseOp (x : Sexp) : Option (Op Int) :=
+def parseOp (x : Sexp) : Option (Op Ctx) :=
   match x with
   | Sexp.list [Sexp.atom "op", Sexp.atom name, n] => (parseNode n).map fun n => { name := some name, node := n }
   | Sexp.list [Sexp.atom "anon", n] => (parseNode n).map fun n => { name := none, node := n }
   | _ => none
 
-def parseFrag (x : Sexp) : Option (String × Node Int) :=
+def parseFrag (x : Sexp) : Option (String × Node Ctx) :=
   match x with
   | Sexp.list [Sexp.atom "fr", Sexp.atom name, n] => (parseNode n).map fun n => (name, n)
   | _ => none
@@ -117,10 +119,11 @@ def handle (line : String) : String :=
       Sexp.list (Sexp.atom "ops" :: ops), Sexp.list (Sexp.atom "frags" :: frags)]) =>
     match max.int?, dr.int?, dm.int?, parseCtx dc, allSome parseOp ops, allSome parseFrag frags with
     | some max, some dr, some dm, some dc, some ops, some frags =>
-      let dflt : FieldCost Int := { resolver := dr, multiplier := dm, ctx := dc }
-      let doc : Doc Int := { ops := ops, frags := frags }
-      let r := validateCost (0 : Int) opName (varsOk == "true") max dflt doc
-      let ref := Spec.refCost (0 : Int) opName dflt doc
+      -- a default cost's Context is a fixed context of its own: it carries no max edge count
+      let dflt : FieldCost Ctx := { resolver := dr, multiplier := dm, ctx := dc.map fun n => (n, 0) }
+      let doc : Doc Ctx := { ops := ops, frags := frags }
+      let r := validateCost ((0, 0) : Ctx) opName (varsOk == "true") max dflt doc
+      let ref := Spec.refCost ((0, 0) : Ctx) opName dflt doc
       toString (Sexp.node "res" [verdictSexp r.verdict,
         (match r.actual with | some a => Sexp.ofInt a | none => Sexp.atom "unset"),
         (match ref with | some n => Sexp.ofNat n | none => Sexp.atom "none")])
